@@ -532,7 +532,10 @@ pub fn gen_tracker_case(seed: u64, o: &WorldOpts) -> TrackerCase {
             }
         }
     }
-    if o.lifecycle {
+    // a quarter of the histories end right after their last predict / batch (own random
+    // stream), so that a tracker is also shut down with consumers still reading
+    let abrupt_end = Rng::new(seed ^ 0x7A11_0000_0000_0003).chance(1, 4);
+    if o.lifecycle && !abrupt_end {
         if r.chance(1, 2) {
             ops.push(TOp::Skip { scene: *r.pick(&scene_ids), n: cfg.max_idle + 1 });
         }
